@@ -18,7 +18,11 @@ impl<'a> Gen<'a> {
         let mut r = self.rng.fork();
         with_session(id, stratum, cfg, self.sink, |s| f(s, &mut r));
     }
+    /// case count for the tier; the thorough figures are scaled by 2 (every thorough run stays within minutes)
     pub fn n(&self, quick: usize, thorough: usize) -> usize {
+        if self.thorough { thorough * 2 } else { quick }
+    }
+    pub fn n_exact(&self, quick: usize, thorough: usize) -> usize {
         if self.thorough { thorough } else { quick }
     }
 }
@@ -554,7 +558,7 @@ fn any_packet(s: &mut Session, r: &mut Rng) -> Vec<u8> {
 /// the deterministic grid of control packets (S2): every command code x request/response x completion code x
 /// data length around the fixed one x PEC right/wrong
 fn control_grid(full: bool, r: &mut Rng, f: &mut dyn FnMut(&str, Vec<u8>)) {
-    let cmds: Vec<u8> = (0..=0x16u8).chain([0x7F, 0x80, 0xFF]).collect();
+    let cmds: Vec<u8> = if full { (0..=255u8).collect() } else { (0..=0x16u8).chain([0x7F, 0x80, 0xFF]).collect() };
     for &cmd in &cmds {
         for rq in [true, false] {
             let ccs: Vec<Option<u8>> = if rq { vec![None] } else { (0..=7u8).chain([0xFF]).map(Some).collect() };
@@ -737,7 +741,7 @@ fn c17(g: &mut Gen) {
         s.op(Op::GetLength(vec![0x20, 0x0F]));
     });
     // all 2^16 (byte 1, byte 2) pairs x several byte 0 values; each also with a random continuation
-    let b0s = g.n(2, 16);
+    let b0s = g.n_exact(2, 16);
     for b1 in 0..256u32 {
         let cfg = gen_cfg(&mut g.rng);
         g.case("sweep", &cfg, |s, r| {
@@ -1114,7 +1118,7 @@ fn c02(g: &mut Gen) {
     }
     // every burst window (start bit x 255 patterns) of valid packets: complete for one packet per encoder in thorough
     let keys = all_keys();
-    let nk = g.n(3, keys.len());
+    let nk = g.n_exact(3, keys.len());
     for ki in 0..nk {
         let key = keys[(ki * 7) % keys.len()];
         let cfg = gen_cfg(&mut g.rng);
